@@ -24,8 +24,9 @@ LAY = stores.Layout(('seq', 0, 130), True, False)
 class Spec(object):
     def __init__(self, kind, request, retries=3, retry_on_empty=False, retry_on_invalid=False, backoff=0.3,
                  history=(), tid0=0, peer_menu=PEER_MENU, read_menu=READ_MENU, send_menu=SEND_MENU,
-                 split='whole', timeout=3):
+                 split='whole', timeout=3, arrival=None):
         self.kind, self.request = kind, request
+        self.arrival = arrival       # (delay, k, gap): during the main call a reply arrives after `delay`; if k, its first k bytes then, the rest `gap` later
         self.retries, self.roe, self.roi, self.backoff = retries, retry_on_empty, retry_on_invalid, backoff
         self.history, self.tid0 = tuple(history), tid0
         self.peer_menu, self.read_menu, self.send_menu = list(peer_menu), list(read_menu), list(send_menu)
@@ -102,7 +103,16 @@ class Sim(object):
         ent = dict(meta, bytes=bytes(data), call_pushed=self.call, avail_at=self.clock.t + delay)
         self.delivered.append(ent)
         sp = self.spec.split
-        if sp == 'whole' or len(data) < 2:
+        if self.spec.arrival and self.mode == 'explore' and not delay:
+            d, k, gap = self.spec.arrival
+            k = min(k, len(data) - 1)
+            ent['avail_at'] = self.clock.t + d + (gap if k else 0)
+            if k:
+                self.line.push(data[:k], d)
+                self.line.push(data[k:], d + gap)
+            else:
+                self.line.push(data, d)
+        elif sp == 'whole' or len(data) < 2:
             self.line.push(data, delay)
         elif sp == 'bytes':
             for i in range(len(data)):
@@ -224,11 +234,24 @@ class Sim(object):
                 self.call = i
                 # history transactions: 'ok' = healthy, 'late' = its reply arrives after the timeout
                 self.mode = 'explore' if role == 'main' else 'healthy'
-                hist_late = hist_silent = False
+                hist_late = hist_silent = hist_reuse = False
                 if role == 'history' and isinstance(name, tuple):
-                    name, hist_late, hist_silent = name[0], name[1] == 'late', name[1] == 'silent'
+                    name, hist_late, hist_silent, hist_reuse = name[0], name[1] == 'late', name[1] == 'silent', name[1] == 'reuse'
+                if hist_reuse:
+                    name = spec.request          # the application's request object, executed now and again as the main call
                 m = req_of(name, i)
                 req = bind.to_obj(dict(m, unit=UNIT))
+                reused = None
+                if hist_reuse:
+                    self.reuse = (m, req)
+                elif role == 'main' and getattr(self, 'reuse', None) is not None:
+                    # the same object again, after the application changed its address field (where it has one)
+                    m, req = self.reuse
+                    m = dict(m)
+                    if 'address' in m and hasattr(req, 'address'):
+                        m['address'] += 1
+                        req.address = m['address']
+                    reused = req
                 if hist_late:
                     saved = self.spec.peer_menu, self.mode
                     self.mode = 'forced-late'
@@ -259,7 +282,7 @@ class Sim(object):
                                    dict(tid=tid, unit=p['unit'], fc=mm['fc'], what='late', pdu=body), delay=spec.timeout + 0.5)
                             s.last_reply = (tid, p['unit'], body)
                         self.line.peer = late_peer
-                    r = call(c, m, req)
+                    r = c.execute(req) if (hist_reuse or reused is not None) else call(c, m, req)
                     rec['result'] = r
                     rec['raised'] = None
                 except BaseException as e:   # noqa
